@@ -6,10 +6,14 @@
 //! RankSelectMixedIL256 (both dimensions), RankSelectAllZero/AllOne, AdaptiveRankSelect, MultiDimRankSelect<2> /
 //! AdaptiveMultiDimensional (forwarders onto interleaved-256).
 //! S-only cells: BitVector::rank1_bulk_simd, bulk_rank1_simd / bulk_select1_simd / bulk_popcount_simd.
+//! Oracle breadth (c04_x.rs, all S-only): the secondary entry points, presets, thresholds and extended histories.
 use crate::util::*;
 use serde_json::{json, Value};
 use zipora::succinct::rank_select::*;
 use zipora::succinct::BitVector;
+
+#[path = "c04_x.rs"]
+mod x;
 
 const HEADER: &str = r#"From Coq Require Import List NArith ZArith Bool.
 Import ListNotations.
@@ -140,13 +144,16 @@ fn runs_of(bits: &[bool]) -> Vec<(bool, usize)> {
     out
 }
 
-fn one_vector(cx: &mut Ctx, bits: &[bool], mode: u32, r: &mut Rng, to_coq: bool) {
+fn one_vector(cx: &mut Ctx, bits: &[bool], mode: u32, r: &mut Rng, to_coq: bool) { one_vector_cj(cx, bits, mode, r, to_coq, None) }
+
+/// `cj_over`: the case description to log / report instead of the run-length form (vectors given by (kind, n, seed)).
+fn one_vector_cj(cx: &mut Ctx, bits: &[bool], mode: u32, r: &mut Rng, to_coq: bool, cj_over: Option<Value>) {
     let o = Oracle::new(bits);
     let n = bits.len();
     let ps = positions(n, cx.all_queries, r);
     let runs = runs_of(bits);
     let shown: Vec<Value> = runs.iter().take(400).map(|(b, k)| json!([*b as u8, k])).collect();
-    let cj = json!({"runs": runs.iter().map(|(b, k)| json!([*b as u8, k])).collect::<Vec<_>>(), "mode": mode});
+    let cj = match cj_over { Some(c) => c, None => json!({"runs": runs.iter().map(|(b, k)| json!([*b as u8, k])).collect::<Vec<_>>(), "mode": mode}) };
     if !cx.begin_case(&cj) { return; }
     let class: Option<&str> = None;
     let nontrivial = n >= 65 && !o.ones.is_empty() && !o.zeros.is_empty();
@@ -322,6 +329,8 @@ fn one_vector(cx: &mut Ctx, bits: &[bool], mode: u32, r: &mut Rng, to_coq: bool)
         match res { Err(p) => cx.sum.fail(name, None, cj.clone(), &format!("panicked: {}", p)),
                     Ok(bad) => if !bad.is_empty() { cx.sum.fail(name, None, cj.clone(), &bad.join("; ")); } }
     }
+    // --- oracle breadth: secondary entry points, presets, word-level and bulk kernels (c04_x.rs; oracle-only cells)
+    x::extra_cells(cx, bits, mode, &o, &ps, &cj, &key, nontrivial);
     // --- Coq model comparison for SE512 (4 option combos) and FewOne
     if to_coq && (mode == 0 || mode == 2) && n <= 2600 && cx.shards.len() < cx.budget {
         let combo = (r.below(2) == 1, r.below(2) == 1);
@@ -606,6 +615,8 @@ fn run_one(cx: &mut Ctx, c: &Value) {
         bv_history(cx, init["use"].as_bool().unwrap_or(false), init["size"].as_u64().unwrap_or(0) as usize, init["val"].as_bool().unwrap_or(false), &ops, true);
         return;
     }
+    if c.get("cell").and_then(|x| x.as_str()) == Some("bitvector/xhistory") { x::x_history_replay(cx, c); return; }
+    if c.get("cell").and_then(|x| x.as_str()) == Some("big") { x::big_replay(cx, c); return; }
     let mut bits = vec![];
     for rn in c["runs"].as_array().unwrap() { for _ in 0..rn[1].as_u64().unwrap() { bits.push(rn[0].as_u64().unwrap() == 1); } }
     let mode = c["mode"].as_u64().unwrap_or(0) as u32;
@@ -615,7 +626,7 @@ fn run_one(cx: &mut Ctx, c: &Value) {
 
 pub fn run(args: &Args) {
     let mut cx = Ctx {
-        sum: Summary::new("C04", "all bit strings of length <= 10 (quick) / 12 (thorough); generated vectors at lengths around 64/256/512/2048/65536 boundaries with densities all-0, all-1, single bit at a boundary, 1/1000, 1/2, 7/8, 999/1000, long runs; bit vectors built by push, by over-push + resize-down, by over-push + pop, by with_size(false) + set, by with_size(true) + clear, by growing with resize(n, true); four vectors with runs of 8200..20032 ones at 8192-bit boundaries; every position for rank0/rank1/get and every k (plus ones, ones+1) for select0/select1 when len <= 1400, boundary + random sample otherwise; non-trivial = length >= 65 with both bit values present; BitVector operation histories (15..85 steps from new or with_size(n, v) at block-boundary sizes: push bursts, pop bursts, set, resize, ensure_set1, fast_ensure_set1, insert, clear, get, rank1, rank0, count_ones, len at and around len and the 64-bit block edges) compared step by step with a Vec<bool>, then every position of the final vector and the structures built from it; non-trivial history = at least 5 mutations"),
+        sum: Summary::new("C04", "all bit strings of length <= 10 (quick) / 12 (thorough); generated vectors at lengths around 64/256/512/2048/65536 boundaries with densities all-0, all-1, single bit at a boundary, 1/1000, 1/2, 7/8, 999/1000, long runs; bit vectors built by push, by over-push + resize-down, by over-push + pop, by with_size(false) + set, by with_size(true) + clear, by growing with resize(n, true); four vectors with runs of 8200..20032 ones at 8192-bit boundaries; every position for rank0/rank1/get and every k (plus ones, ones+1) for select0/select1 when len <= 1400, boundary + random sample otherwise; non-trivial = length >= 65 with both bit values present; BitVector operation histories (15..85 steps from new or with_size(n, v) at block-boundary sizes: push bursts, pop bursts, set, resize, ensure_set1, fast_ensure_set1, insert, clear, get, rank1, rank0, count_ones, len at and around len and the 64-bit block edges) compared step by step with a Vec<bool>, then every position of the final vector and the structures built from it; non-trivial history = at least 5 mutations; oracle breadth (c04_x.rs): on every vector the other constructors (RankSelectBuilder from_bit_vector / from_iter / from_bytes / with_optimizations presets, Default, Clone, from_words, FewOne/FewZero::new, from_raw_bits, with_capacity), the mixed select-cache options, the per-dimension functions of mixed IL256, AdaptiveRankSelect::with_criteria over 7 non-default criteria, MultiDimRankSelect with 1/3/5 dimensions and BLOCK_SIZE 512 incl. intersect/union, and the word-level and bulk entry points of bmi2_acceleration / bmi2_comprehensive / SimdOps; 26 vectors given by (kind, n, seed) at 4097, 8191..8193, 8447..8449, 9999..10001, 12288, 16383..16385, 65535..65537, 131072, 2^20-1..2^20+1, 999999..1000001 bits (10 kinds); 700 extended BitVector histories (12..62 steps from new / with_size / with_capacity / from_raw_bits / default) mixing the operations above with reserve, get_mut, set_range_simd, bulk_bitwise_op_simd against generated vectors of other lengths, clone, ==, unchecked accessors, from_raw_bits round trips"),
         shards: CoqShards::new(HEADER, 40),
         budget: if args.thorough { 6000 } else { 600 },
         all_queries: args.thorough,
@@ -635,7 +646,7 @@ pub fn run(args: &Args) {
             if let Some(n) = v["stop_at"].as_u64() { cx.stop_at = n as usize; }
             if let Some(a) = v["aborted"].as_array() {
                 for c in a {
-                    let cell = if c.get("cell").is_some() { "bitvector" } else { "process" };
+                    let cell = match c.get("cell").and_then(|x| x.as_str()) { Some("bitvector/xhistory") => "bitvector/xhistory", Some("big") => "process", Some(_) => "bitvector", None => "process" };
                     cx.sum.eval(cell, &format!("abort {}", c), true);
                     cx.sum.fail(cell, None, c.clone(), "the process aborted (bounds failure / abort inside the library) while running this case");
                 }
@@ -668,7 +679,7 @@ pub fn run(args: &Args) {
         }
         // the worker never got through: report what was seen
         for c in aborted {
-            let cell = if c.get("cell").is_some() { "bitvector" } else { "process" };
+            let cell = match c.get("cell").and_then(|x| x.as_str()) { Some("bitvector/xhistory") => "bitvector/xhistory", Some("big") => "process", Some(_) => "bitvector", None => "process" };
             cx.sum.eval(cell, &format!("abort {}", c), true);
             cx.sum.fail(cell, None, c, "the process aborted (bounds failure / abort inside the library) while running this case");
         }
@@ -682,7 +693,7 @@ pub fn run(args: &Args) {
         cx.sum.write(&args.out, sh);
         return;
     }
-    if let Ok(rd) = std::fs::read_dir("/verif/corpus/C04") {
+    if let Ok(rd) = std::fs::read_dir("corpus/C04") {
         let mut files: Vec<_> = rd.filter_map(|e| e.ok()).map(|e| e.path()).collect();
         files.sort();
         for p in files {
@@ -693,6 +704,8 @@ pub fn run(args: &Args) {
             }
         }
     }
+    let mut t0 = std::time::Instant::now();
+    macro_rules! lap { ($k:expr) => { cx.sum.dist_max(concat!("ms_", $k), t0.elapsed().as_millis() as u64); t0 = std::time::Instant::now(); } }
     // enumerated: all bit strings up to a small length
     let maxlen = if args.thorough { 12 } else { 10 };
     for len in 0..=maxlen {
@@ -701,6 +714,7 @@ pub fn run(args: &Args) {
             one_vector(&mut cx, &bits, 0, &mut rng, v % 61 == 0);
         }
     }
+    lap!("enumerated");
     // long runs of ones (byte-wide lane counters of the bulk popcount kernels wrap at 256 per lane)
     for (lead, ones, tail, mode) in [(0usize, 20032usize, 0usize, 0u32), (8192, 8200, 100, 0), (8192, 16384, 37, 4), (100, 9000, 7000, 5)] {
         let mut bits = vec![false; lead]; bits.extend(std::iter::repeat(true).take(ones)); bits.extend(std::iter::repeat(false).take(tail));
@@ -708,6 +722,9 @@ pub fn run(args: &Args) {
         let mut r2 = rng.clone();
         one_vector(&mut cx, &bits, mode, &mut r2, false);
     }
+    // vectors given by (kind, n, seed): internal thresholds (32/33 blocks, 10^4, 2^14, 2^16, 2^20, 10^6)
+    x::big_family(&mut cx, args.thorough);
+    lap!("kind_n_seed");
     let ngen = if args.thorough { 6000 } else { 420 };
     for i in 0..ngen {
         let bits = gen_bits(&mut rng, args.thorough);
@@ -719,6 +736,7 @@ pub fn run(args: &Args) {
         one_vector(&mut cx, &bits, mode, &mut r2, true);
         rng.next();
     }
+    lap!("generated");
     // BitVector operation histories
     let nhist = if args.thorough { 4000 } else { 400 };
     for i in 0..nhist {
@@ -727,6 +745,18 @@ pub fn run(args: &Args) {
         cx.sum.dist("bitvector_histories");
         bv_history(&mut cx, u, n, v, &ops, i % 2 == 0 || args.thorough);
     }
+    lap!("histories");
+    // extended histories: the same operations mixed with reserve / get_mut / set_range_simd / bulk_bitwise_op_simd / clone / == /
+    // from_raw_bits / unchecked accessors (oracle only)
+    let nx = if args.thorough { 6000 } else { 700 };
+    for i in 0..nx {
+        let (st, n0, v0, sd, ops) = x::x_gen_ops(&mut rng);
+        if i < 1 { cx.sum.sample(json!({"bitvector_xhistory": {"start": st, "n": n0, "ops": ops.len()}})); }
+        cx.sum.dist("bitvector_xhistories");
+        x::x_history(&mut cx, st, n0, v0, sd, &ops);
+    }
+    lap!("xhistories");
+    let _ = t0;
     cx.sum.dist_max("coq_cases", cx.shards.len() as u64);
     let sh = cx.shards.write(&args.out);
     cx.sum.write(&args.out, sh);
